@@ -3,6 +3,7 @@
    enspara/geometry/rotamer.py on every run (Gen/RotamerGen.v); the specification is Model/Rotamer.v. *)
 From Coq Require Import List ZArith QArith Sorted.
 From EV Require Import RotamerBase RotamerGen Rotamer RotamerProofs.
+From EV Require Import DisorderBase DisorderGen DisorderGenProofs.
 Import ListNotations.
 
 (* For the library's boundary sets (phi [0,180,360], shifted psi [0,160,360], chi [0,120,240,360]),
@@ -65,3 +66,63 @@ Example c20_example :
   gen_rotamers [10#1] hb_phi (180#1) = None.
 Proof. vm_compute. repeat split; reflexivity. Qed.
 Print Assumptions c20_example.
+
+(* ---- round 3: disorder.transitions itself, regenerated from enspara/cards/disorder.py on every run
+   (translator/tr_disorder.py -> Gen/DisorderGen.v over the vocabulary of Base/DisorderBase.v:
+   Python slices, element-wise subtraction, `!= 0` mask, np.where / ra.where, np.bincount with
+   minlength, RaggedArray(flat, lengths=...)).  `Some` = no exception is raised. *)
+
+(* The translated 1-D branch (d = a[1:] - a[:-1]; np.where(d != 0)[0]) equals the specification,
+   for every row (lengths 0 and 1 included). *)
+Theorem c20_gen_transitions1_is_spec : forall row, gen_transitions1 row = Some (transitions row).
+Proof. exact gen_transitions1_eq. Qed.
+Print Assumptions c20_gen_transitions1_is_spec.
+
+(* The translated 2-D branch (row-wise differences, ra.where, bincount of the row indices with
+   minlength = number of rows, RaggedArray of the column indices) equals the specification for every
+   list of rows: rows of different lengths (RaggedArray input), empty rows, no rows, rows without
+   any transition (trailing or all of them) included; the RaggedArray construction never fails. *)
+Theorem c20_gen_transitions2_is_spec : forall rows, gen_transitions2 rows = Some (transitions2 rows).
+Proof. exact gen_transitions2_eq. Qed.
+Print Assumptions c20_gen_transitions2_is_spec.
+
+(* The translated branch test `len(assignments.shape) == 1` sends 1-D input to the 1-D branch and
+   2-D / ragged input to the other one. *)
+Theorem c20_gen_transitions_dispatch_1d : forall row, gen_transitions (Arr1 row) = TT1 (transitions row).
+Proof. exact gen_transitions_1d. Qed.
+Print Assumptions c20_gen_transitions_dispatch_1d.
+
+Theorem c20_gen_transitions_dispatch_2d : forall rows, gen_transitions (Arr2 rows) = TT2 (transitions2 rows).
+Proof. exact gen_transitions_2d. Qed.
+Print Assumptions c20_gen_transitions_dispatch_2d.
+
+(* End to end for the translated code, 1-D: frame n is reported iff row[n] <> row[n+1]; ascending. *)
+Theorem c20_gen_transitions1_reports : forall row,
+  exists tt, gen_transitions1 row = Some tt /\
+    (forall k, In k tt <->
+       exists x y, nth_error row k = Some x /\ nth_error row (S k) = Some y /\ x <> y) /\
+    StronglySorted lt tt.
+Proof. exact gen_transitions1_reports. Qed.
+Print Assumptions c20_gen_transitions1_reports.
+
+(* End to end for the translated code, 2-D / ragged: one output row per trajectory; in row i frame n
+   is reported iff rows[i][n] <> rows[i][n+1]; ascending within each row. *)
+Theorem c20_gen_transitions2_reports : forall rows,
+  exists tts, gen_transitions2 rows = Some tts /\ length tts = length rows /\
+    forall i,
+      (forall k, In k (nth i tts []) <->
+         exists x y, nth_error (nth i rows []) k = Some x /\
+                     nth_error (nth i rows []) (S k) = Some y /\ x <> y) /\
+      StronglySorted lt (nth i tts []).
+Proof. exact gen_transitions2_reports. Qed.
+Print Assumptions c20_gen_transitions2_reports.
+
+(* Non-vacuity: ragged rows, a row of length 1, an empty row, trailing rows without transitions
+   (the former defects 595eb51 / c85597b), and input without any transition. *)
+Example c20_gen_example :
+  gen_transitions (Arr2 [[0; 1; 1; 2]; [5]; []; [3; 3; 3]; [1; 0]]%Z) = TT2 [[0; 2]; []; []; []; [0]] /\
+  gen_transitions (Arr2 [[0; 0]; [0; 0]]%Z) = TT2 [[]; []] /\
+  gen_transitions (Arr1 [2; 2; 0; 0; 1]%Z) = TT1 [1; 3] /\
+  gen_transitions (Arr1 []) = TT1 [].
+Proof. vm_compute. repeat split; reflexivity. Qed.
+Print Assumptions c20_gen_example.
